@@ -903,10 +903,13 @@ async fn build_authoritative_response(
                         )
                         .await
                         .map_result(),
+                    // a wildcard expansion only needs the proof that there is no closer match,
+                    // not the NSEC record of the wildcard itself (RFC 4035 3.1.3.3)
                     Some(NxProofKind::Nsec) if has_wildcard_match => handler
                         .nsec_records(query.name(), lookup_options)
                         .await
-                        .map_result(),
+                        .map_result()
+                        .map(|res| res.map(|nsecs| closest_nsec(nsecs, query.name()))),
                     _ => None,
                 };
 
@@ -1023,6 +1026,24 @@ async fn build_authoritative_response(
     }
 
     message
+}
+
+/// Keeps the NSEC record that matches or covers the name, together with its RRSIG records.
+#[cfg(feature = "__dnssec")]
+fn closest_nsec(nsecs: AuthLookup, name: &LowerName) -> AuthLookup {
+    let owner = nsecs.iter().find_map(|rr| {
+        let RData::DNSSEC(DNSSECRData::NSEC(nsec)) = &rr.data else {
+            return None;
+        };
+
+        // the last NSEC record of the zone wraps to the origin, it covers all the names after it
+        let next_domain_name = nsec.next_domain_name();
+        (rr.name <= **name && (**name < *next_domain_name || *next_domain_name <= rr.name))
+            .then_some(&rr.name)
+    });
+
+    let records = nsecs.iter().filter(|rr| Some(&rr.name) == owner);
+    LookupRecords::Section(records.cloned().collect()).into()
 }
 
 /// Prepare a response for a forwarded zone.
